@@ -460,8 +460,10 @@ func TestCheck(t *testing.T) {
 		"case = (artefact, mutation operator, JSON pointer) submitted to the node's verifier API, or a grid case (validAt / revocation / trust / deactivation / signer) with a reference verdict. " +
 		"key-history grid = (DID method, artefact signed with key 1/key 2/both, validation time strictly inside each document version's interval | before creation | after deactivation | now, route API/Go) on a second node whose identities get a key added, a key removed and are deactivated; reference = key listed by the version in force at the validation time. " +
 		"status-entries grid = third-party credentials (both formats, as credential and inside a presentation) whose credentialStatus is an object or an array over {revocation list A/B set/clear, suspension set/clear, custom purpose, unknown type, unusable lists}: curated orders plus seeded random sequences; reference = revoked iff any revocation entry has its bit set. " +
+		"validity-window grid = genuinely signed documents (harness identities; the node's wallet via its Go API) whose window [start, end] sits in proof.created/expires (JSON-LD presentation and credential), issuanceDate/expirationDate, or JWT nbf/exp, with start/end from {Go zero time, the day after, Unix epoch, epoch+1s, a year ago, an hour ago, in an hour, year 9999, absent} x validation times {none, +2h, -30m, -2y} x routes {API, Go, credential inside a presentation}; reference = start <= at <= end; refutation = reported valid outside the window. " +
+		"lookup-fault grid = (a) third node (did:nuts): credentials in both formats revoked over the network, then the revocation lookup of the verifier's store fails (I/O error, deadline, database not open, transient first lookup, store really closed) x routes {credential API, presentation API with the credential alone/last of 2/middle of 3, Verifier.Verify as Resolve/Search call it, VCR.Resolve}; refutation = a credential the node had reported revoked is reported valid during or after the fault, or an unrevoked one stays refused after the fault; (b) the did:web document of a never-resolved issuer cannot be obtained (7 kinds of failure): its credentials must not be reported valid. " +
 		"Non-trivial: the verifier returned a verdict for a mutant that differs from the original; distinct by (format, operator, pointer).")
-	r.Require(450, 250)
+	r.Require(700, 400)
 	r.Assume("mutation operators and the trust/revocation/deactivation grid run on one in-process node with did:web issuers; DID document histories (key added, removed, deactivated over time) are exercised on a second in-process node with a did:nuts and a did:web identity it manages itself (documents of remote did:web parties carry no history)")
 	r.Assume("version timestamps of DID documents have one-second granularity: validation times are taken at least one second away from every recorded version timestamp")
 	r.Assume("JSON-LD equality up to: member order, set order, single-element arrays, @value wrapping, id/@id and type/@type aliases")
@@ -488,6 +490,8 @@ func TestCheck(t *testing.T) {
 	}
 	kh := startKeyHistory(t, r)
 	mark("second_node_started")
+	lf := startLookupFaults(t, r)
+	mark("third_node_started")
 	seDone := make(chan struct{})
 	go func() {
 		defer close(seDone)
@@ -498,6 +502,18 @@ func TestCheck(t *testing.T) {
 			}
 		}()
 		statusEntries(r, n, hosted)
+	}()
+
+	vwDone := make(chan struct{})
+	go func() {
+		defer close(vwDone)
+		defer mark("validity_windows_done")
+		defer func() {
+			if p := recover(); p != nil {
+				r.Inconclusive(fmt.Sprintf("validity windows: harness panic: %v", p))
+			}
+		}()
+		validityWindows(r, n, hosted, holder.DID)
 	}()
 
 	issue := func(o iamflow.IssueOpts) json.RawMessage {
@@ -680,6 +696,11 @@ func TestCheck(t *testing.T) {
 	case <-seDone:
 	case <-time.After(10 * time.Minute):
 		r.Inconclusive("status entries: phase did not finish (watchdog)")
+	}
+	select {
+	case <-vwDone:
+	case <-time.After(10 * time.Minute):
+		r.Inconclusive("validity windows: phase did not finish (watchdog)")
 	}
 
 	// (3) grid: validation time, revocation, trust, deactivation, signer != subject
@@ -940,6 +961,8 @@ func TestCheck(t *testing.T) {
 	}
 
 	mark("main_flow_done")
+	lf.wait(r)
+	mark("lookup_faults_joined")
 	kh.wait()
 	mark("key_history_joined")
 	phases["key_history_own"] = kh.elapsed.Seconds()
@@ -960,11 +983,23 @@ type didHost struct {
 	orig  http.RoundTripper
 	hits  int
 	byURL map[string]int
+	// lookup faults (lookupfaults_test.go): URL -> fault kind; faultAlt: URL whose document is served instead ("other-document")
+	faults   map[string]string
+	faultAlt map[string]string
+	faulted  int
 }
 
 func (h *didHost) RoundTrip(req *http.Request) (*http.Response, error) {
 	h.mu.Lock()
 	body, ok := h.docs[req.URL.String()]
+	fault := h.faults[req.URL.String()]
+	if fault != "" {
+		h.faulted++
+	}
+	if ok && fault != "" {
+		h.mu.Unlock()
+		return faultyResponse(req, fault, body, h.docs[h.faultAlt[req.URL.String()]])
+	}
 	if ok {
 		h.hits++
 		if h.byURL == nil {
